@@ -295,15 +295,30 @@ theorem wrong_key_type_rejected (C : Crypto) (s : Settings) (c : Cert) (rest : C
 /-- A Checker whose fingerprint does not match the recorded peer chain (or with no peer chain)
     makes the call fail: the wrapped handshake never completes; if the inner handshake had
     completed, the connection is closed and the session is no longer resumable. -/
-theorem checker_mismatch_fails (fpf : Chain → Bytes) (fp : Bytes) (isClient : Bool) (o : Outcome)
+theorem checker_mismatch_fails (fpf : Cert → Bytes) (fp : Bytes) (isClient : Bool) (o : Outcome)
     (sess : Session) (hs : o.session = some sess) (hbad : checkerOk fpf fp isClient sess = false) :
     (wrapper fpf (some fp) isClient o).completed = false ∧
     (o.completed = true → (wrapper fpf (some fp) isClient o).closed = true ∧
       ∃ s', (wrapper fpf (some fp) isClient o).session = some s' ∧ s'.resumable = false) :=
   wrapper_mismatch fpf fp isClient o sess hs hbad
 
+/-- The pin is compared with the END-ENTITY certificate only: a pin that equals the fingerprint of
+    some other certificate of the presented chain (an attacker holding the key of certificate A
+    who presents `[A, V]` against a pin on `V`) does not pass unless the end-entity certificate
+    itself has that fingerprint. -/
+theorem checker_pins_end_entity (fpf : Cert → Bytes) (fp : Bytes) (isClient : Bool) (sess : Session)
+    (c : Cert) (rest : Chain)
+    (hch : (if isClient then sess.serverCertChain else sess.clientCertChain) = c :: rest) :
+    checkerOk fpf fp isClient sess = true ↔ fpf c = fp := by
+  rw [checkerOk_iff, hch]
+  constructor
+  · rintro ⟨c', rest', heq, hfp⟩
+    simp only [List.cons.injEq] at heq
+    rw [heq.1]; exact hfp
+  · intro h; exact ⟨c, rest, rfl, h⟩
+
 /-- conversely a wrapped call that completes has passed the checker on the recorded chain -/
-theorem checker_pass_means_match (fpf : Chain → Bytes) (fp : Bytes) (isClient : Bool) (o : Outcome)
+theorem checker_pass_means_match (fpf : Cert → Bytes) (fp : Bytes) (isClient : Bool) (o : Outcome)
     (h : (wrapper fpf (some fp) isClient o).completed = true) :
     o.completed = true ∧ ∀ sess, o.session = some sess → checkerOk fpf fp isClient sess = true :=
   wrapper_ok fpf fp isClient o h
@@ -405,7 +420,13 @@ example : (hsServer12 exCrypto exSettings 3 [] [exRsa] [1, 2] { scheme := some (
 example : srpClientPremaster 23 5 3 6 4 (srpServerB 23 5 3 (powMod 5 6 23) 9) 7 = .ok 6 ∧
     srpServerPremaster 23 (powMod 5 6 23) 9 (srpClientA 23 5 4) 7 = .ok 6 := by decide
 
-example : checkerOk (fun ch => ch.map fun c => UInt8.ofNat c.key) [9] true { serverCertChain := [exRsa] } = false := by
+example : checkerOk (fun c => [UInt8.ofNat c.key]) [9] true { serverCertChain := [exRsa] } = false := by
   decide
+
+-- pin on the second certificate of the chain [attacker, victim]: refused; pin on the end entity: accepted
+example : checkerOk (fun c => [UInt8.ofNat c.key]) [9] true
+    { serverCertChain := [exRsa, { key := 9, alg := .rsa, bits := 2048 }] } = false ∧
+  checkerOk (fun c => [UInt8.ofNat c.key]) [7] true
+    { serverCertChain := [exRsa, { key := 9, alg := .rsa, bits := 2048 }] } = true := by decide
 
 end Tls.Auth
